@@ -117,9 +117,10 @@ Definition set_thr (st : state) (t : nat) (p : pc) : state := set_threads st (se
 Record variant := mkV {
   v_recover_own : bool;    (* 290ab18: recover deletes payload[key] only if it is the creator's own entry *)
   v_save_rehome : bool;    (* b9905fa: save sets e.gen = c.currentGeneration *)
-  v_release_fixed : bool   (* 9ff7c19: ReleaseBuckets walks the released indices from the highest down *)
+  v_release_fixed : bool;  (* 9ff7c19: ReleaseBuckets walks the released indices from the highest down *)
+  v_add_locked : bool      (* save does gen.size.Add(size) before c.mu.Unlock() *)
 }.
-Definition repaired := mkV true true true.
+Definition repaired := mkV true true true false.
 
 (* Cache.recover: `if c.payload[key] == e { delete(c.payload, key) }` (before 290ab18: delete by key,
    whatever entry is there now), then wg.Done() on the creator's own (still wg != nil, i.e. abandoned) entry *)
@@ -177,7 +178,10 @@ Definition step_thread (var : variant) (st : state) (t : nat) : option state :=
               | Some ca =>
                 let size := if edeleted en then 0 else esz st + s in
                 let g := if v_save_rehome var then ccur ca else egen en in
-                Some (set_thr (set_entries st (upd i (saved v size g) (entries st))) t (PAdd g size v))
+                (* PAdd g s: the goroutine is between save's unlock and its return; s = what it still has to Add *)
+                let gs := if v_add_locked var then gadd g size (gens st) else gens st in
+                let pend := if v_add_locked var then 0 else size in
+                Some (set_thr (set_gens (set_entries st (upd i (saved v size g) (entries st))) gs) t (PAdd g pend v))
               end
           | OErr => Some (set_thr (set_entries st (recover_entries (v_recover_own var) c k i (entries st))) t (PDone RErr))
           | OPanic => Some (set_thr (set_entries st (recover_entries (v_recover_own var) c k i (entries st))) t (PDone RPanic))
@@ -366,7 +370,7 @@ Definition thread_pc (st : state) (t : nat) : option pc :=
   match nth_error (threads st) t with Some th => Some (tpc th) | None => None end.
 
 Definition pending_to (g : nat) (th : thread) : bool :=
-  match tpc th with PAdd g' _ _ => Nat.eqb g' g | _ => false end.
+  match tpc th with PAdd g' s _ => Nat.eqb g' g && negb (s =? 0) | _ => false end.
 Definition loading_in (c : nat) (e : entry) : bool :=
   eattached e && Nat.eqb (ecache e) c && match estat e with ELoading => true | _ => false end.
 
